@@ -118,6 +118,10 @@ def cells(tier):
                     continue
                 if shuffled and tier == "quick" and iface == "async" and layout in ("nested", "multi"):
                     continue
+                if shuffled and layout in ("four-shards", "five-shards") and iface in ("concurrent", "tfdataset", "async"):
+                    continue  # measured: round robin x pool order over >= 4 shards exceeds the 900 s cell budget
+                if shuffled and layout == "five-shards" and iface == "numpy":
+                    continue  # example-level shuffle buffer over 9 examples: > 900 s
                 splits = ["train"] + (["test"] if layout in ("short-last", "nested", "three-splits", "multi") and not shuffled else [])
                 if layout == "three-splits" and not shuffled:
                     splits.append("holdout")
